@@ -109,6 +109,9 @@ Example C17_guards_nonvacuous :
               SBase (OCas 0 (RHash 2) 0 (RHash 0)); SBase (OSetRef 1 (RSym 0)); SPackRefs; SBase OIterRefs;
               SBase (ODelRef 2); SBase (OGetRef 2); SBase (OSetObj 3); SAddPack [3; 4]; SBase (OIterObjs 0);
               SBase (OSetIdx 2); SBase (OSetCfg 1); SBase (OSetShallow [4]); SBase (OAppendLog 0 5);
-              SReopen; SBase (OGetLog 0); SBase (OCas 1 (RHash 3) 1 (RSym 2))] in
+              SReopen; SBase (OGetLog 0); SBase (OCas 1 (RHash 3) 1 (RSym 2));
+              (* HEAD (name 4): set, CAS hash -> symbolic, PackRefs leaves it loose, listing *)
+              SBase (OSetRef 4 (RHash 1)); SBase (OCas 4 (RSym 0) 4 (RHash 1)); SPackRefs; SBase (OGetRef 4);
+              SBase OIterRefs; SBase (OCas 4 (RHash 2) 4 (RSym 5)); SBase (ODelRef 4)] in
   mem_guards U1 st_empty ops = true /\ fs_guards U1 fs_empty ops = true.
 Proof. vm_compute. split; reflexivity. Qed.
